@@ -36,6 +36,7 @@ struct M<'a, K, const D: usize> {
     kname: &'static str,
     label: String,
     alphabet: Vec<[f64; D]>,
+    seed_pts: Vec<[f64; D]>,
     k1_points: Vec<[f64; D]>,
     _k: std::marker::PhantomData<K>,
 }
@@ -46,7 +47,7 @@ fn is_dup_outcome(o: &Outcome) -> bool {
 
 impl<'a, K: Kernel<D, Scalar = f64> + Sync + Send, const D: usize> M<'a, K, D> {
     fn replay_json(&self, hist: &[Op], extra: Value) -> Value {
-        json!({"D": D, "kernel": self.kname, "family": self.label, "alphabet": self.alphabet.iter().map(|p| p.to_vec()).collect::<Vec<_>>(), "history": hist, "detail": extra})
+        json!({"D": D, "kernel": self.kname, "family": self.label, "alphabet": self.alphabet.iter().map(|p| p.to_vec()).collect::<Vec<_>>(), "seed_points": self.seed_pts.iter().map(|p| p.to_vec()).collect::<Vec<_>>(), "history": hist, "detail": extra})
     }
 
     /// invariant + probes in one state
@@ -215,7 +216,7 @@ where
     DtI<K, D>: Send + Sync,
 {
     let k1_points: Vec<[f64; D]> = vec![std::array::from_fn(|i| 0.3 + 0.05 * i as f64), std::array::from_fn(|i| 0.7 - 0.05 * i as f64)];
-    let m = M::<K, D> { rep, cn, kname, label: label.to_string(), alphabet, k1_points, _k: std::marker::PhantomData };
+    let m = M::<K, D> { rep, seed_pts: seed_pts.to_vec(), cn, kname, label: label.to_string(), alphabet, k1_points, _k: std::marker::PhantomData };
     let base: DtI<K, D> = if seed_pts.is_empty() {
         DelaunayTriangulation::with_empty_kernel(K::default())
     } else {
@@ -241,6 +242,9 @@ fn both<const D: usize>(rep: &Report, cn: &Cn, label: &str, alphabet: Vec<[f64; 
 
 fn main() {
     let args = parse_args();
+    if let Some(p) = &args.replay {
+        std::process::exit(vcore::replay::generic(p));
+    }
     silence_panics();
     let rep = Report::new("C09", &args);
     let thorough = args.tier == Tier::Thorough;
